@@ -240,7 +240,10 @@ def p_rules(rules, deep=True):
             if deep:
                 sh = r.styleSheet
                 # @charset rules of imported sheets (incl. the one inherited from the parent, C08) are not compared
-                out.append(('I', r.href, r.media.mediaText, bool(r.hrefFound), (sh.href or '') if sh else '',
+                # for a rule whose sheet was not found the fourth field is the URL that was tried (`_hrefTried`, '' = none)
+                found = bool(r.hrefFound)
+                out.append(('I', r.href, r.media.mediaText, found,
+                            ((sh.href or '') if sh else '') if found else (getattr(r, '_hrefTried', None) or ''),
                             [x for x in p_rules(sh.cssRules, True) if x[0] != 'C'] if sh else []))
             else:
                 out.append(('I', r.href, r.media.mediaText, False, '', []))
